@@ -347,6 +347,9 @@ def case_resume(p):
 
 
 CASES = {"verify": case_verify, "resume": case_resume}
+from vt.props import c01_e2e  # noqa: E402
+
+CASES.update(c01_e2e.CASES)
 
 
 def _work(item, seed, tier):
@@ -358,7 +361,7 @@ def _work(item, seed, tier):
         verdict = p.pop("_verdict", None)
         acc.case(
             key=(name, core.jsonable(p)),
-            outcome=f"{name}:{verdict or p['fault']}:{'ok' if not v else v[0][0]}" if name == "verify" else f"resume:{p['fault']}:{'ok' if not v else v[0][0]}",
+            outcome=f"{name}:{verdict or p['fault']}:{'ok' if not v else v[0][0]}" if name == "verify" else f"{name}:{p['fault']}:{'ok' if not v else v[0][0]}",
             nontrivial=True,
             sample={"case": name, "params": p},
             symbols=(f"{name}:{p['fault']}", f"style:{p['style']}") + ((f"verdict:{verdict}",) if verdict else ()),
@@ -415,6 +418,7 @@ def run(ctx):
                 plist = [{"rec": rec, "eph": eph, "style": style, "fault": f, "arg": a} for f, a in rl]
                 for i in range(0, len(plist), 50):
                     work.append(("resume", plist[i : i + 50]))
+    work += c01_e2e.plan()
     ctx.pmap(_work, work)
     ctx.exhaustive = True
     ctx.bounds.update(records=len(recs), ephemerals=len(ephs), styles=list(pairdrv.STYLES), bits="all bits of every wire byte, signature, identifier, resume tag")
